@@ -113,7 +113,7 @@ def gen(tier: str, seed: int):
     cfg = c10.make_cfg(gated)
     cfg.reexport_forms = tuple(f for f in cfg.reexport_forms if f.split("-")[0] in ("name", "alias"))
     packs = [("history", history_package(rng, gated))]
-    n = 8 if tier == "quick" else 120
+    n = 8 if tier == "quick" else 500
     for i in range(n):
         pkg = pg.random_pkg(rng, cfg)
         packs.append((f"random{i}", pg.render(pkg)))
